@@ -100,6 +100,13 @@ TABLE = [
     (("C03",), "jxl_modular::image::decode_simple_table_slow", "compare", "table.decision_prop == 15", "seed-C03m",
      "a lookup table on property 15 (the weighted predictor's max error) needs the weighted-predictor state whatever predictor its leaves "
      "use: without the header the property reads 0 for every sample and the wrong leaf is taken"),
+    (("C13", "C11"), "jxl_frame::Frame::try_parse_lf_global", "reads", "toc_group", "seed-C13m",
+     "a section is decoded in partial (error-tolerant) mode only while fewer bytes than its own TOC size are available - not while "
+     "the frame as a whole is still loading: in partial mode every error of the section, including OutOfMemory, is dropped"),
+    (("C13", "C11"), "jxl_frame::Frame::try_parse_lf_group", "reads", "toc_group", "seed-C13m",
+     "partial mode of an LF group is decided by that group's own size in the TOC"),
+    (("C13", "C11"), "jxl_frame::Frame::pass_group_bitstream", "reads", "toc_group", "seed-C13m",
+     "partial mode of a pass group is decided by that group's own size in the TOC"),
     (("C06",), "jxl_render::util::image_region_to_frame", "reads", "frame_type", "seed-C06h",
      "a ReferenceOnly frame is a patch / blending source whatever its save_before_ct bit says (the bit is only defaulted to true when "
      "absent), and reset_cache keeps its render handle across region changes: it has to be rendered in full"),
